@@ -3,6 +3,7 @@ From MD Require Import Lib.Base Model.Node Model.Codec.PyInt Model.Codec.Utf Mod
 From MD Require Import Proofs.UtfProofs Proofs.PercentProofs Proofs.PyIntProofs Proofs.XmlChrProofs Proofs.EscDecProofs.
 From MD Require Import Regex.Syntax Generated.Regexes Proofs.Shapes1.
 From MD Require Import Regex.LocalityProofs Proofs.RoundTrip.
+From MD Require Import Proofs.RoundTrip7.
 
 (* a run of references with decimal 0-255 / two-digit hex items decodes to exactly those bytes (any count) *)
 Theorem C14_xml_codec : forall items : list bytes, xml_items_ok items -> unescape_xml (concat (map xml_reference items)) = Ok (map xml_item_num items) /\ wf_bytes (map xml_item_num items).
@@ -114,6 +115,21 @@ Print Assumptions C14_utf16_roundtrip.
 Theorem C14_xml_roundtrip : forall (pre : list N) (p suf : bytes), wf_bytes p -> (5 <= Datatypes.length p)%nat -> xml_stop suf = true -> (Datatypes.length (xml_form p) + 64 <= Backtrack.default_fuel)%nat -> neutral RE_xml_XML_ESCAPE_RE pre = true -> let form := xml_form p in let data := pre ++ form ++ suf in find_xml_hex data = Hang \/ (exists rest : list node, find_xml_hex data = Ok (Node [] p (s2b "unescape.xml") (blen pre) (blen pre + blen form) [] :: rest) /\ Forall (fun nd : node => blen pre + blen form <= n_st nd) rest).
 Proof. exact find_xml_hex_roundtrip. Qed.
 Print Assumptions C14_xml_roundtrip.
+
+(* END TO END (Proofs/RoundTrip7.v): >= 5 references, each decimal or two-digit hex (either case of x and of the digits), freely mixed: the bytes, exact span *)
+Theorem C14_xml_hexrefs_roundtrip : forall (pre : list N) (l : list (xml_sp * N)) (suf : bytes), wf_bytes (map snd l) -> (5 <= Datatypes.length l)%nat -> xml_stop suf = true -> (Datatypes.length (xml_form_sp l) + 64 <= Backtrack.default_fuel)%nat -> neutral RE_xml_XML_ESCAPE_RE pre = true -> let form := xml_form_sp l in let data := pre ++ form ++ suf in find_xml_hex data = Hang \/ (exists rest : list node, find_xml_hex data = Ok (Node [] (map snd l) (s2b "unescape.xml") (blen pre) (blen pre + blen form) [] :: rest) /\ Forall (fun nd : node => blen pre + blen form <= n_st nd) rest).
+Proof. exact find_xml_hex_roundtrip_hexrefs. Qed.
+Print Assumptions C14_xml_hexrefs_roundtrip.
+
+(* chr / chrw / chrb(n), any letter case, leading zeros: the UTF-8 encoding of code point n, exact span *)
+Theorem C14_chr_roundtrip : forall (nm : bytes) (pre : list N) (k : nat) (d' : bytes) (suf : list N), chr_name nm -> all_digits d' -> 1 <= blen d' <= 5 -> is_surrogate (dec_value d') = false -> Z.of_nat k + blen d' <= MAX_STR_DIGITS -> neutral RE_chr_CHR_RE pre = true -> let form := nm ++ s2b "(" ++ (repeat 48%N k ++ d') ++ s2b ")" in let data := pre ++ form ++ suf in find_chr data = Hang \/ (exists rest : list node, find_chr data = Ok (Node (s2b "string") (utf8_bytes_cp (dec_value d')) (s2b "function.chr") (blen pre) (blen pre + blen form) [] :: rest) /\ Forall (fun nd : node => blen pre + blen form <= n_st nd) rest).
+Proof. exact find_chr_roundtrip. Qed.
+Print Assumptions C14_chr_roundtrip.
+
+(* surrogates (and arguments beyond the int-conversion limit) are not reported *)
+Theorem C14_chr_unencodable : forall (nm : bytes) (pre : list N) (k : nat) (d' : bytes) (suf : list N), chr_name nm -> all_digits d' -> 1 <= blen d' <= 5 -> is_surrogate (dec_value d') = true \/ MAX_STR_DIGITS < Z.of_nat k + blen d' -> (k + 100 <= Backtrack.default_fuel)%nat -> neutral RE_chr_CHR_RE pre = true -> let form := nm ++ s2b "(" ++ (repeat 48%N k ++ d') ++ s2b ")" in let data := pre ++ form ++ suf in find_chr data = Hang \/ (exists rest : list node, find_chr data = Ok rest /\ Forall (fun nd : node => blen pre + blen form <= n_st nd) rest).
+Proof. exact find_chr_no_node. Qed.
+Print Assumptions C14_chr_unencodable.
 
 Example C14_example :
   find_xml_hex (L"zz &#72;&#x69;&#33;&#10;&#x41; zz") = Ok [Node [] [72; 105; 33; 10; 65]%N (L"unescape.xml") 3 30 []]
